@@ -28,7 +28,7 @@ from typing import Any, Dict, List, Optional, Tuple
 
 from asl.absint import UNKNOWN, AbsEval, Machine
 from asl.cfg import Node, cfg_of
-from asl.flow import reaching
+from asl.flow import find_path, reaching
 from asl.loader import AnalysisError, Unit, norm, own_nodes
 from asl.values import USERISH, atoms_deep
 from .common import make_resolver, name_value, raised_class, real_units, uncast
@@ -90,13 +90,31 @@ def run(ctx) -> None:
     from . import tooltables
     tooltables.aggregate_tables(ctx, "R02.8")
     ctx.floor("agg_cells_decided", 600)
-    ctx.floor("guard_cells", 12)
+    ctx.floor("guard_cells", 6)  # (one comparison loop x {LT, EQ, GT} x {min, max}; the library has two loops today)
     ctx.floor("aggregations", 15)
     ctx.floor("decided:heapq.nlargest", 100)
     ctx.floor("decided:heapq.nsmallest", 100)
 
 
 # --------------------------------------------------------------------------- R02.1
+class _WrapperOps:
+    """``__lt__`` / ``__eq__`` of a key wrapper: the wrapped keys compare as the scenario says (other relative to self)"""
+
+    def __init__(self, outcome: str):
+        self.inner = _GuardOps(outcome)
+
+    def attr(self, value, name, node, env):
+        if value in ("OLD@", "NEW@"):
+            return ("key", value[:-1])  # whatever the field is called: the wrapped key
+        return UNKNOWN
+
+    def compare(self, op, left, right, env):
+        return self.inner.compare(op, left, right, env)
+
+    def binop(self, op, left, right, env):
+        return self.inner.binop(op, left, right, env)
+
+
 class _GuardOps:
     """new-vs-incumbent comparisons are answered from the scenario's order outcome."""
 
@@ -190,6 +208,17 @@ def r02_1(ctx) -> None:
         which = "keyed" if any(k for k in keyed if any(
             isinstance(x, ast.Name) and x.id == k for b in loop.ast.body for x in ast.walk(b))) else "keyless"
         for inv in (False, True):
+            # a loop written for one direction only (``if invert: <max loop> else: <min loop>``) is judged for that direction
+            def consistent(a, lab, b, inv=inv):
+                if a.kind == "branch" and lab in ("t", "f"):
+                    t = a.ast
+                    if isinstance(t, ast.Name) and t.id == invert:
+                        return lab == ("t" if inv else "f")
+                    if isinstance(t, ast.UnaryOp) and isinstance(t.op, ast.Not) and isinstance(t.operand, ast.Name) and t.operand.id == invert:
+                        return lab == ("f" if inv else "t")
+                return lab not in ("e", "p")
+            if find_path(cfg.entry, lambda x, loop=loop: x is loop, edge_ok=consistent) is None:
+                continue
             for outcome in ("LT", "EQ", "GT"):
                 ctx.count("guard_cells")
                 env: Dict[str, Any] = {invert: inv, best: "OLD"}
@@ -431,16 +460,25 @@ def r02_4(ctx) -> None:
         ctx.check(lt is not None and eq is not None, "R02.4", w.replace("asyncstdlib.", ""), info.name,
                   "the key wrapper defines __lt__ and __eq__: without __eq__ two entries with equal keys never compare "
                   "equal, the arrival position is never consulted and ties come out in heap-layout order")
-        if lt is not None:
-            cmp = [n for n in own_nodes(lt.node) if isinstance(n, ast.Compare)]
-            ok = len(cmp) == 1 and isinstance(cmp[0].ops[0], ast.Lt) and norm(cmp[0].left).startswith("other.") \
-                and norm(cmp[0].comparators[0]).startswith("self.")
-            ctx.check(ok, "R02.4", lt, "__lt__", "the wrapper reverses the order with a strict comparison (other < self)")
-        if eq is not None:
-            text = norm(eq.node)
-            ok = ("self.key < other.key" in text and "other.key < self.key" in text and "not" in text) or \
-                "self.key == other.key" in text
-            ctx.check(ok, "R02.4", eq, "__eq__", "equality of wrappers is equality of the wrapped keys (derived from < or ==)")
+        # both methods as truth tables over the three order outcomes of the wrapped keys (however they are written)
+        for meth, want, text in ((lt, {"LT": True, "EQ": False, "GT": False},
+                                  "the wrapper reverses the order with a strict comparison (other < self)"),
+                                 (eq, {"LT": False, "EQ": True, "GT": False},
+                                  "equality of wrappers is equality of the wrapped keys (derived from < or ==)")):
+            if meth is None or len(meth.param_names()) != 2:
+                continue
+            me, other = meth.param_names()
+            got = {}
+            for outcome in ("LT", "EQ", "GT"):  # (the other wrapper's key relative to this one's)
+                ops = _WrapperOps(outcome)
+                try:
+                    outs = Machine(cfg_of(meth), ops).run({me: "OLD@", other: "NEW@"})
+                except AnalysisError:
+                    outs = []
+                vals = {oc.returned for oc in outs if oc.terminal.kind == "exit"}
+                got[outcome] = next(iter(vals)) if len(vals) == 1 and len(outs) == 1 else None
+            ctx.check(got == want, "R02.4", meth, meth.node.name, text,
+                      witness=f"other's key LT / EQ / GT this one's: evaluated {got}")
     # strict replacement: the loop body is abstractly evaluated for the new item's key being
     # LT / EQ / GT the heap root's key; the root is replaced exactly when root < new
     cfg = cfg_of(u)
